@@ -47,9 +47,11 @@ CLAIMED = {
     "C07": dict(ref="DESIGN.md §3 C07", note=NOTE + "; partial: lifted closures of Run only; framing, exit codes and interactive accept are outside",
                 text="The streaming-filter pusher and both item builders of Run are lifted verbatim from the current source and executed on symbolic records: every printed "
                      "line must be an original input record, and AsString must return the input bytes under --with-nth and --header-lines."),
-    "C19": dict(ref="DESIGN.md §3 C19", note=NOTE + "; partial: the filter callback only; fastwalk and the file system are outside",
+    "C19": dict(ref="DESIGN.md §3 C19", note=NOTE + "; partial: readFiles with fastwalk modelled; the real fastwalk and file system run only in the native replays",
                 text="The walker callback, lifted verbatim from readFiles, is decided for every path inside the bound, file or directory, under all option "
-                     "combinations and a skip list: pruned exactly when documented, listed with the documented shape. Traversal and symlinks are NOT claimed."),
+                     "combinations and a skip list; the whole readFiles is decided over small trees (hidden entries, one symbolic link incl. a cycle, five skip lists, "
+                     "file/dir/hidden/follow) with fastwalk.Walk replaced by a model that the native replays compare with the real fastwalk; parseWalkerOpts on word lists. "
+                     "fastwalk's own traversal, file-system errors and larger trees are NOT claimed."),
     "C09": dict(ref="DESIGN.md §3 C09", note=NOTE + "; partial: leaf helpers only; the doAction dispatcher is outside",
                 text="Cursor movement (vset/vmove with --cycle and layout direction), the multi-select primitives under every operation sequence up to the bound, and "
                      "delete-char are decided against the documented rules. The readline-style editing and select-all logic in the action dispatcher is NOT claimed."),
@@ -58,8 +60,8 @@ PENDING = "check not built yet in this session (planned, see DESIGN.md §3)"
 NA = {
        
        
-    "C14": "terminal modes, child processes, signals and the goroutine/channel render loop are OS effects and schedules, not a bounded computation the SSA→SMT encoder can make symbolic (DESIGN.md §5)",
-    "C15": "relation between the whole Terminal state and the byte stream written through tui.Window; thousands of lines of drawing code on uniseg tables with no leaf whose correctness implies the property (DESIGN.md §5)",
-    "C17": "option/bind parsing is decided inside Go's regexp engine (a 400-character alternation and regexes compiled from input); a symbolic regexp is out of reach and contract stubs would create unreal states (DESIGN.md §5)",
-    "C20": "three goroutines per preview command, process groups, kill signals and real time; no sequential core whose correctness implies the property (DESIGN.md §5)",
+    "C14": "terminal modes, child processes, signals and the goroutine/channel render loop are OS effects and schedules, not a bounded computation the SSA→SMT encoder can make symbolic (DESIGN.md §6)",
+    "C15": "relation between the whole Terminal state and the byte stream written through tui.Window; thousands of lines of drawing code on uniseg tables with no leaf whose correctness implies the property (DESIGN.md §6)",
+    "C17": "option/bind parsing is decided inside Go's regexp engine (a 400-character alternation and regexes compiled from input); a symbolic regexp is out of reach and contract stubs would create unreal states (DESIGN.md §6)",
+    "C20": "three goroutines per preview command, process groups, kill signals and real time; no sequential core whose correctness implies the property (DESIGN.md §6)",
 }
